@@ -90,6 +90,30 @@ example :
   | 1 => simp at hl; subst hl; simp
   | (k + 2) => simp at hl
 
+/-- The same for a configuration as the code holds it: when the float64 value of `spotsize / (speed * scantime)`
+(`SrrConfig.magnification`, two rounded operations) is the integer `M ≥ 1` - "integer magnification" - the functions that
+read `self.config.magnification` (`valid_for_data`, `krisskross`, `subpixels_per_pixel`) behave as `krisskross_voxel` says. -/
+theorem krisskross_voxel_of_config {α : Type} (z : α) (c : SrrConfig) (M : Nat) (hM : 1 ≤ M)
+    (hm : c.magnification = (M : Rat)) (hscan : 0 < c.scantime) (hoffs : c.offs ≠ [])
+    (layers : List (Arr2 α)) (l0 s0 l1 s1 : Nat) (hc : Crossed layers l0 s0 l1 s1)
+    (hv : validForData c c.magnification layers = some true) :
+    ∃ out, krisskross z c c.magnification layers = some out ∧
+      out.rows = reconRows l0 M (subpixelsPerPixel c.size c.magnification) c.offs ∧
+      out.cols = reconCols l1 M (subpixelsPerPixel c.size c.magnification) c.offs ∧
+      out.depth = layers.length ∧
+      (∀ r cc i, out.get r cc i
+        = voxel z l0 l1 M (subpixelsPerPixel c.size c.magnification) c.warmup.toNat c.offs layers r cc i) := by
+  rw [hm] at hv ⊢
+  obtain ⟨out, h1, h2, h3, h4, h5, _⟩ := krisskross_voxel z c M hM hscan hoffs layers l0 s0 l1 s1 hc hv
+  exact ⟨out, h1, h2, h3, h4, h5⟩
+
+/-- non-vacuity: speed 1.7, scan time 0.1 and spot size 2·(1.7·0.1) as float64 values: the exact quotient of the three
+floats is not 2, the float64 magnification is exactly 2 -/
+example :
+    let c := SrrConfig.make (6124895493223875 / 18014398509481984) (7656119366529843 / 4503599627370496)
+      (3602879701896397 / 36028797018963968) 0 [(0, 1)]
+    c.magnification = ((2 : Nat) : Rat) ∧ c.magnificationExact ≠ 2 := by decide +kernel
+
 /-- **Acceptance implies that every intermediate shape matches**, so no NumPy assignment can fail:
 each prepared layer has exactly the shape `(l0·M, l1·M)` of its slot in `aligned`, each target
 region of `subpixel_offset` has exactly the shape of the enlarged block, and both steps succeed. -/
@@ -174,7 +198,13 @@ example : effOffsets [(1, 2), (0, 3)] = [(0, 0), (1, 2), (0, 3)] ∧ effOffsets 
   decide
 
 /-- **The flattened image is the per-pixel mean over the layers** of the voxels of the geometric
-model (same hypotheses as `krisskross_voxel`). -/
+model (same hypotheses as `krisskross_voxel`).
+What this rests on: `np.mean(data, axis=2)` is modelled as `meanDepth`, the EXACT sum of the layer values divided by
+the number of layers.  NumPy adds float64 values in some order and divides once, so the real result can differ from
+the exact mean by rounding; the statement is about the exact mean and the harness compares at 1e-12 relative (the
+generated payloads are integers below 2⁵³, for which the float sum is exact and only the division rounds).  The content
+of the theorem is that `get(flat=True)` averages exactly the voxels of `krisskross_voxel` over all layers, zeros of
+layers outside their footprint included, and divides by the number of layers (not by the number of covering layers). -/
 theorem flat_is_mean (c : SrrConfig) (M : Nat) (hM : 1 ≤ M) (hscan : 0 < c.scantime) (hoffs : c.offs ≠ [])
     (layers : List (Arr2 Rat)) (l0 s0 l1 s1 : Nat) (hc : Crossed layers l0 s0 l1 s1)
     (hv : validForData c (M : Rat) layers = some true) :
@@ -190,7 +220,10 @@ theorem flat_is_mean (c : SrrConfig) (M : Nat) (hM : 1 ≤ M) (hscan : 0 < c.sca
   congr 2
   exact List.map_congr_left (fun i _ => hget r cc i)
 
-/-- **Reading a single layer returns that layer unmodified, transposed for odd layers.** -/
+/-- **Reading a single layer returns that layer unmodified, transposed for odd layers** - on `getLayer`, whose
+definition (a copy, `.T` when odd) this statement all but restates; `layer_read_pointwise` below is the statement on
+`srrGet`, the model of `SRRLaser.get` with its `layer` / reconstruction branches and the final `flat` step, against the
+pointwise formula `layerSpec`. -/
 theorem layer_read {α : Type} (layers : List (Arr2 α)) (i : Nat) (l : Arr2 α) (h : layers[i]? = some l) :
     ∃ a, getLayer layers i = some a ∧
       (i % 2 = 0 → a = l) ∧
@@ -230,18 +263,267 @@ theorem offsets_setter_exact (spotsize speed scantime warmup : Rat) (pairs : Lis
 
 /-- **An SRR configuration survives conversion to and from its array form unchanged**: every
 configuration the constructor produces from a non-zero scan time and a non-empty list of offsets
-with positive denominators (any spot size, speed, warm-up). -/
+with positive denominators (any spot size, speed, warm-up of at most 2⁵⁰ samples).  The float roundings of the
+getter's product `_warmup * scantime` and of the setter's quotient are part of the statement (`fl`). -/
 theorem srrconfig_roundtrip (spotsize speed scantime warmup : Rat) (pairs : List (Nat × Nat))
-    (hs : scantime ≠ 0) (hp : pairs ≠ []) (hd : ∀ p ∈ pairs, 1 ≤ p.2) :
+    (hs : scantime ≠ 0) (hp : pairs ≠ []) (hd : ∀ p ∈ pairs, 1 ≤ p.2)
+    (hw : (SrrConfig.make spotsize speed scantime warmup pairs).warmup.natAbs ≤ 2 ^ 50) :
     SrrConfig.fromArray (SrrConfig.make spotsize speed scantime warmup pairs).toArray
       = SrrConfig.make spotsize speed scantime warmup pairs := by
   apply roundtrip_state
   · exact hs
   · simpa [SrrConfig.make] using hp
   · exact (offsets_setter_exact spotsize speed scantime warmup pairs hd).1
+  · exact hw
 
 example : SrrConfig.fromArray (SrrConfig.make 35 140 (1 / 4) (25 / 2) [(0, 2), (1, 3)]).toArray
     = SrrConfig.make 35 140 (1 / 4) (25 / 2) [(0, 2), (1, 3)] :=
-  srrconfig_roundtrip _ _ _ _ _ (by norm_num) (by simp) (by decide)
+  srrconfig_roundtrip _ _ _ _ _ (by norm_num) (by simp) (by decide) (by decide +kernel)
+
+/-- **Acceptance is exactly the specification `validSpec`**: for every crossed stack, integer magnification `M ≥ 1`
+and positive scan time, `valid_for_data` answers `validSpec`: warm-up not negative (the check reads the float product
+`_warmup * scantime`, whose sign is the sign of `_warmup`) and every line long enough.  Both directions: nothing that
+meets the specification is rejected. -/
+theorem valid_iff_spec {α : Type} (c : SrrConfig) (M : Nat) (hM : 1 ≤ M) (hscan : 0 < c.scantime)
+    (layers : List (Arr2 α)) (l0 s0 l1 s1 : Nat) (hc : Crossed layers l0 s0 l1 s1) :
+    validForData c (M : Rat) layers = some (validSpec c.warmup M l0 s0 l1 s1) := by
+  obtain ⟨d0, d1, h0, h1, r0, c0, r1, c1⟩ := crossed_heads layers l0 s0 l1 s1 hc
+  unfold validForData validSpec
+  rw [h0, h1]
+  simp only [magInt_natCast M hM, magAxis_natCast M hM, Arr2.dim, if_true, r0, c0, r1, c1]
+  have hsign : c.warmupSeconds < 0 ↔ c.warmup < 0 := by
+    unfold SrrConfig.warmupSeconds
+    rw [fl_neg_iff]
+    constructor
+    · intro h
+      by_contra hn
+      have : (0 : Rat) ≤ (c.warmup : Rat) := by exact_mod_cast (not_lt.mp hn)
+      have := mul_nonneg this hscan.le
+      linarith
+    · intro h
+      have : (c.warmup : Rat) < 0 := by exact_mod_cast h
+      exact mul_neg_of_neg_of_pos this hscan
+  by_cases hw : c.warmup < 0
+  · rw [if_pos (hsign.mpr hw)]
+    simp [not_le.mpr hw]
+  · rw [if_neg (fun h => hw (hsign.mp h))]
+    have hw' : 0 ≤ c.warmup := not_lt.mp hw
+    split_ifs with a b
+    · simp only [Option.some.injEq]; symm; simp only [Bool.and_eq_false_iff, decide_eq_false_iff_not]
+      left; right; push_cast at a ⊢; omega
+    · simp only [Option.some.injEq]; symm; simp only [Bool.and_eq_false_iff, decide_eq_false_iff_not]
+      right; push_cast at b ⊢; omega
+    · simp only [Option.some.injEq]; symm
+      simp only [Bool.and_eq_true, decide_eq_true_eq]
+      push_cast at a b ⊢
+      refine ⟨⟨hw', by omega⟩, by omega⟩
+
+theorem div_pred_mul (a p : Nat) (ha : 1 ≤ a) (hp : 1 ≤ p) : (a * p - 1) / p = a - 1 := by
+  apply Nat.div_eq_of_lt_le
+  · have : (a - 1) * p + p = a * p := by
+      have : a - 1 + 1 = a := by omega
+      calc (a - 1) * p + p = (a - 1 + 1) * p := by rw [Nat.add_mul, Nat.one_mul]
+        _ = a * p := by rw [this]
+    have hp' : 1 ≤ a * p := Nat.mul_le_mul ha hp
+    omega
+  · have : a - 1 + 1 = a := by omega
+    rw [this]
+    have hp' : 1 ≤ a * p := Nat.mul_le_mul ha hp
+    omega
+
+/-- **The specification of acceptance is exactly "the geometric model can be evaluated"**: for a crossed stack with at
+least one line per layer kind, `M ≥ 1`, `p ≥ 1` sub-pixels per pixel and any offset list, `validSpec` holds
+iff the warm-up is not negative and every source index the formula `voxel` uses exists in its layer.  So a stack is
+accepted (`valid_iff_spec`) exactly when each output voxel has a sample to take. -/
+theorem valid_iff_evaluable {α : Type} (w : Int) (M p : Nat) (hM : 1 ≤ M) (hp : 1 ≤ p) (offs : List Nat)
+    (layers : List (Arr2 α)) (l0 s0 l1 s1 : Nat) (hl0 : 1 ≤ l0) (hl1 : 1 ≤ l1) (hc : Crossed layers l0 s0 l1 s1) :
+    validSpec w M l0 s0 l1 s1 = true ↔
+      (0 ≤ w ∧ ∀ r cc i, i < layers.length → voxelInRange l0 l1 M p w.toNat offs layers r cc i = true) := by
+  constructor
+  · intro hv
+    simp only [validSpec, Bool.and_eq_true, decide_eq_true_eq] at hv
+    obtain ⟨⟨hw0, hva⟩, hvb⟩ := hv
+    refine ⟨hw0, ?_⟩
+    obtain ⟨wn, hw⟩ := Int.eq_ofNat_of_zero_le hw0
+    have hwn : w.toNat = wn := by rw [hw]; simp
+    have hv0 : wn + l1 * M ≤ s0 := by rw [hw] at hva; exact_mod_cast hva
+    have hv1 : wn + l0 * M ≤ s1 := by rw [hw] at hvb; exact_mod_cast hvb
+    intro r cc i hi
+    rw [hwn]
+    have hl : layers[i]? = some layers[i] := List.getElem?_eq_getElem hi
+    have hsh := hc.2 i _ hl
+    simp only [voxelInRange, hl, inFootprint, sourceIndex, Bool.and_eq_true, decide_eq_true_eq]
+    split
+    · rename_i hf
+      obtain ⟨⟨⟨_, f2⟩, _⟩, f4⟩ := hf
+      have a1 : (r - layerOffset offs i) / p < l0 * M :=
+        Nat.div_lt_of_lt_mul (by rw [Nat.mul_comm]; omega)
+      have a2 : (cc - layerOffset offs i) / p < l1 * M :=
+        Nat.div_lt_of_lt_mul (by rw [Nat.mul_comm]; omega)
+      by_cases hpar : i % 2 = 0
+      · simp only [hpar, if_true] at hsh ⊢
+        rw [hsh.1, hsh.2]
+        simp only [Bool.and_eq_true, decide_eq_true_eq]
+        exact ⟨Nat.div_lt_of_lt_mul (by rw [Nat.mul_comm]; exact a1), by omega⟩
+      · simp only [hpar, if_false] at hsh ⊢
+        rw [hsh.1, hsh.2]
+        simp only [Bool.and_eq_true, decide_eq_true_eq]
+        exact ⟨Nat.div_lt_of_lt_mul (by rw [Nat.mul_comm]; exact a2), by omega⟩
+    · rfl
+  · rintro ⟨hw0, hall⟩
+    obtain ⟨wn, hw⟩ := Int.eq_ofNat_of_zero_le hw0
+    have hwn : w.toNat = wn := by rw [hw]; simp
+    obtain ⟨d0, d1, h0, h1, r0, c0, r1, c1⟩ := crossed_heads layers l0 s0 l1 s1 hc
+    have hlen := hc.1
+    have ha : 1 ≤ l0 * M := Nat.mul_le_mul hl0 hM
+    have hb : 1 ≤ l1 * M := Nat.mul_le_mul hl1 hM
+    have hap : 1 ≤ l0 * M * p := Nat.mul_le_mul ha hp
+    have hbp : 1 ≤ l1 * M * p := Nat.mul_le_mul hb hp
+    -- the last voxel of the footprint of layer 0 and of layer 1
+    have key : ∀ i, i < 2 → ∀ l, layers[i]? = some l →
+        ((if i % 2 = 0 then ((l0 * M - 1) / M, wn + (l1 * M - 1)) else ((l1 * M - 1) / M, wn + (l0 * M - 1))) : Nat × Nat).2 < l.cols := by
+      intro i hi l hl
+      have h := hall (layerOffset offs i + (l0 * M * p - 1)) (layerOffset offs i + (l1 * M * p - 1)) i (by omega)
+      rw [hwn] at h
+      simp only [voxelInRange, hl, inFootprint, sourceIndex, Nat.add_sub_cancel_left,
+        div_pred_mul (l0 * M) p ha hp, div_pred_mul (l1 * M) p hb hp] at h
+      rw [if_pos (by simp only [Bool.and_eq_true, decide_eq_true_eq]; refine ⟨⟨⟨by omega, by omega⟩, by omega⟩, by omega⟩)] at h
+      simp only [Bool.and_eq_true, decide_eq_true_eq] at h
+      exact h.2
+    have k0 := key 0 (by omega) d0 h0
+    have k1 := key 1 (by omega) d1 h1
+    simp at k0 k1
+    simp only [validSpec, Bool.and_eq_true, decide_eq_true_eq]
+    rw [hw]
+    refine ⟨⟨by omega, ?_⟩, ?_⟩
+    · have : wn + l1 * M ≤ s0 := by omega
+      exact_mod_cast this
+    · have : wn + l0 * M ≤ s1 := by omega
+      exact_mod_cast this
+
+example : validSpec 2 3 2 8 1 8 = true ∧ validSpec 2 3 2 4 1 8 = false ∧ validSpec (-1) 1 2 9 2 9 = false := by decide
+
+/-- **Reading a single layer, stated on `SRRLaser.get` itself** (`srrGet`: layer selection, the reconstruction
+branch, the final `flat` step): for every stack, every existing layer `i`, with or without `flat`, whatever the
+configuration and the mean function, the result is a 2-d image and it is `layerSpec`: as many rows and columns as the
+stored layer (exchanged for odd `i`) and pixel `(r, cc)` is the stored pixel `(r, cc)` (`(cc, r)` for odd `i`).
+No warm-up is trimmed, nothing is stretched or shifted, `flat` does not average a single layer. -/
+theorem layer_read_pointwise {α : Type} (z : α) (mean : Arr3 α → Arr2 α) (c : SrrConfig) (m : Rat)
+    (layers : List (Arr2 α)) (i : Nat) (l : Arr2 α) (h : layers[i]? = some l) (flat : Bool) :
+    ∃ a, srrGet z mean c m layers (some i) flat = some (.img a) ∧
+      a.rows = (if i % 2 = 0 then l.rows else l.cols) ∧ a.cols = (if i % 2 = 0 then l.cols else l.rows) ∧
+      (∀ r cc, a.get r cc = if i % 2 = 0 then l.get r cc else l.get cc r) ∧
+      a = layerSpec l i ∧ getLayer layers i = some a := by
+  by_cases hi : i % 2 = 1
+  · have hi0 : ¬ i % 2 = 0 := by omega
+    refine ⟨l.T, by simp [srrGet, h, hi], by simp [hi0, Arr2.T], by simp [hi0, Arr2.T], ?_, ?_, ?_⟩
+    · intro r cc; simp [hi0, Arr2.T]
+    · simp [layerSpec, hi0, Arr2.T]
+    · simp [getLayer, h, hi]
+  · have hi0 : i % 2 = 0 := by omega
+    refine ⟨l, by simp [srrGet, h, hi], by simp [hi0], by simp [hi0], ?_, ?_, ?_⟩
+    · intro r cc; simp [hi0]
+    · simp [layerSpec, hi0]
+    · simp [getLayer, h, hi]
+
+example : ∃ a, srrGet (0 : Int) (fun x => { rows := x.rows, cols := x.cols, get := fun _ _ => 0 })
+      (SrrConfig.make 35 140 (1 / 4) 0 [(0, 1)]) 1
+      [{ rows := 1, cols := 2, get := fun _ k => k }, { rows := 2, cols := 3, get := fun r k => 10 * r + k }] (some 1) true
+    = some (.img a) ∧ a.rows = 3 ∧ a.cols = 2 ∧ a.get 2 1 = 12 := by
+  obtain ⟨a, h, hr, hcc, hg, _⟩ := layer_read_pointwise (0 : Int) (fun x => { rows := x.rows, cols := x.cols, get := fun _ _ => 0 })
+    (SrrConfig.make 35 140 (1 / 4) 0 [(0, 1)]) 1
+    [{ rows := 1, cols := 2, get := fun _ k => k }, { rows := 2, cols := 3, get := fun r k => 10 * r + k }] 1 _ rfl true
+  exact ⟨a, h, by simpa using hr, by simpa using hcc, by rw [hg]; simp⟩
+
+/-- `get()` and `get(flat=True)` through `srrGet`: the reconstruction, respectively its mean over the layers
+(`getFlat`), so `krisskross_voxel` / `flat_is_mean` speak about what `get` returns -/
+theorem srrGet_reconstruction {α : Type} (z : α) (mean : Arr3 α → Arr2 α) (c : SrrConfig) (m : Rat)
+    (layers : List (Arr2 α)) :
+    srrGet z mean c m layers none false = (krisskross z c m layers).map .stack ∧
+    srrGet z mean c m layers none true = (krisskross z c m layers).map (fun a => .img (mean a)) := by
+  constructor <;> (simp only [srrGet]; cases krisskross z c m layers <;> simp)
+
+/-- the constructor is the two setters applied to the raster parameters, and `set_equal_subpixel_offsets(n)` stores what
+the `subpixel_offsets` setter stores for the offsets `0/n, 1/n, …, (n-1)/n` (`n ≥ 1`) -/
+theorem setters_compose (spotsize speed scantime warmup : Rat) (pairs : List (Nat × Nat)) (c : SrrConfig) (n : Nat) (hn : 1 ≤ n) :
+    SrrConfig.make spotsize speed scantime warmup pairs
+      = (({ spotsize := spotsize, speed := speed, scantime := scantime, warmup := 0, size := 0, offs := [] } : SrrConfig).setWarmup
+          warmup).setOffsets pairs ∧
+    c.setEqualOffsets n = c.setOffsets ((List.range n).map (fun k => (k, n))) := by
+  refine ⟨rfl, ?_⟩
+  have hl : lcmList (((List.range n).map (fun k => (k, n))).map (·.2)) = n := by
+    apply lcmList_const
+    · cases n with
+      | zero => omega
+      | succ k => simp [List.range_succ]
+    · intro x hx; simp at hx; exact hx.2.symm
+  simp only [SrrConfig.setEqualOffsets, SrrConfig.setOffsets, hl]
+  congr 1
+  rw [List.map_map]
+  symm
+  refine (List.map_congr_left (fun a _ => ?_)).trans (List.map_id _)
+  simp only [Function.comp]
+  exact Nat.mul_div_cancel a (by omega)
+
+example : (SrrConfig.make 35 140 (1 / 4) 0 [(0, 1)]).setEqualOffsets 3
+    = SrrConfig.make 35 140 (1 / 4) 0 [(0, 3), (1, 3), (2, 3)] := by decide +kernel
+
+/-- **The warm-up in samples is the exact quotient rounded half-even** (`warmupSpec`) whenever float rounding cannot
+matter: the quotient is a float64 itself (e.g. an exact tie `k + 1/2`), or it is farther from the nearest rounding tie
+than the float rounding error `|x| / 2⁵³`. -/
+theorem warmup_setter_determined (c : SrrConfig) (seconds : Rat) (n : Int)
+    (h : fl (seconds / c.scantime) = seconds / c.scantime ∨
+      ((n : Rat) - 1 / 2 < seconds / c.scantime - |seconds / c.scantime| / 2 ^ 53 ∧
+        seconds / c.scantime + |seconds / c.scantime| / 2 ^ 53 < (n : Rat) + 1 / 2)) :
+    (c.setWarmup seconds).warmup = warmupSpec seconds c.scantime := by
+  unfold SrrConfig.setWarmup warmupSpec
+  simp only
+  rcases h with h | ⟨h1, h2⟩
+  · rw [h]
+  · have he := fl_relerr (seconds / c.scantime)
+    rw [abs_le] at he
+    have hpos : 0 ≤ |seconds / c.scantime| / 2 ^ 53 := by positivity
+    rw [roundHalfEven_near _ n (by linarith [he.1]) (by linarith [he.2]),
+      roundHalfEven_near _ n (by linarith) (by linarith)]
+
+example : ((SrrConfig.make 35 140 (1 / 4) 0 [(0, 1)]).setWarmup (3 / 8)).warmup = 2 ∧ warmupSpec (3 / 8) (1 / 4) = 2 := by
+  decide +kernel
+
+/-- **The array form as NumPy holds it** (`toRec`: the 0-d record `spotsize, speed, scantime, warmup,
+subpixel_offsets` with the `(k, 2)` integer table) read back by name through the keyword constructor (`fromRec`) is the
+constructor applied to the five values, so under the hypotheses of `srrconfig_roundtrip` it is the configuration
+itself; and the 3-field record of a plain `Config` is accepted too, the missing fields taking the defaults of `__init__`. -/
+theorem srrconfig_record_roundtrip (c : SrrConfig) (hs : c.scantime ≠ 0) (ho : c.offs ≠ []) :
+    SrrConfig.fromRec c.toRec = .ok (SrrConfig.fromArray c.toArray) ∧
+    (1 ≤ c.size → c.warmup.natAbs ≤ 2 ^ 50 → SrrConfig.fromRec c.toRec = .ok c) ∧
+    (∀ spotsize speed scantime : Rat, scantime ≠ 0 →
+      SrrConfig.fromRec { names := ["spotsize", "speed", "scantime"], dim := none,
+                          recs := [[.num spotsize, .num speed, .num scantime]] }
+        = .ok (SrrConfig.make spotsize speed scantime (25 / 2) [(0, 2), (1, 2)])) := by
+  have key : SrrConfig.fromRec c.toRec = .ok (SrrConfig.fromArray c.toArray) := by
+    have hne : (c.toArray.offsets.map (fun p => ((p.1 : Int), (p.2 : Int)))).isEmpty = false := by
+      cases hc : c.offs with
+      | nil => exact absurd hc ho
+      | cons a as => simp [SrrConfig.toArray, SrrConfig.subpixelOffsets, hc]
+    have hall : (c.toArray.offsets.map (fun p => ((p.1 : Int), (p.2 : Int)))).all
+        (fun p => decide (0 ≤ p.1) && decide (0 ≤ p.2)) = true := by
+      simp [List.all_eq_true]
+    have hback : (c.toArray.offsets.map (fun p => ((p.1 : Int), (p.2 : Int)))).map (fun p => (p.1.toNat, p.2.toNat))
+        = c.toArray.offsets := by
+      rw [List.map_map]
+      refine (List.map_congr_left (fun a _ => ?_)).trans (List.map_id _)
+      simp
+    have hsc : c.toArray.scantime ≠ 0 := hs
+    simp only [SrrConfig.fromRec, SrrConfig.toRec, srrNames, kwNum, RecArr.fieldIdx]
+    simp [List.findIdx_cons, hne, hall, hback, hsc, SrrConfig.fromArray, pure, Except.pure, bind, Except.bind]
+  refine ⟨key, ?_, ?_⟩
+  · intro hz hw
+    rw [key, roundtrip_state c hs ho hz hw]
+  · intro spotsize speed scantime hsc
+    simp only [SrrConfig.fromRec, srrNames, kwNum, RecArr.fieldIdx]
+    simp [List.findIdx_cons, hsc, pure, Except.pure, bind, Except.bind]
+
+example : SrrConfig.fromRec (SrrConfig.make 35 140 (1 / 4) (1 / 2) [(0, 2), (1, 3)]).toRec
+    = .ok (SrrConfig.make 35 140 (1 / 4) (1 / 2) [(0, 2), (1, 3)]) := by decide +kernel
 
 end Pew.Srr
